@@ -249,3 +249,35 @@ Definition init_temps (t : tree) : temps :=
 Definition exec_program (prog : list instr) (t : tree) : sarr :=
   tget (leaves t) (fold_left exec_instr prog (init_temps t)).
 End Exec.
+
+(* =====================  arbitrary admissible axis orders  =====================
+   sort_contraction_indices replaces the default order of every internal node by
+   some permutation of its legs (leaves and the root keep theirs).  `io` is that
+   assignment; the einsum-path program is the same with io in place of inds_sub. *)
+Section ProgG.
+Variable n : net.
+Variable sl : list slinfo.
+Variable arr : nat -> ptensor.
+Variable e0 : env.
+Variable io : tree -> list ix.
+
+Definition inds_g (t : tree) : list ix :=
+  match t with Leaf k => lkeys (leaf_legs n sl k) | Node _ _ => io t end.
+Fixpoint run_sub_g (t : tree) : ptensor :=
+  match t with
+  | Leaf k => leaf_tensor n sl arr e0 k
+  | Node l r => einsum2 n e0 (inds_g l) (inds_g r) (inds_g t) (run_sub_g l) (run_sub_g r)
+  end.
+Definition run_root_g (t : tree) : ptensor :=
+  match t with
+  | Leaf k => leaf_tensor n sl arr e0 k
+  | Node l r => einsum2 n e0 (inds_g l) (inds_g r) (lkeys (root_legs n sl)) (run_sub_g l) (run_sub_g r)
+  end.
+(* every internal node's order is a duplicate-free enumeration of its legs *)
+Fixpoint admissible (t : tree) : Prop :=
+  match t with
+  | Leaf _ => True
+  | Node l r => NoDup (io t) /\ (forall j, In j (io t) <-> In j (lkeys (sub_legs n sl t)))
+                /\ admissible l /\ admissible r
+  end.
+End ProgG.
